@@ -311,6 +311,65 @@ pub fn run(prop: &'static str, tier: &str) -> i32 {
         all.merge(acc);
     }
 
+    // ---- counts that cross a power of two: the same key supplied N times (every build must still be refused with
+    //      the duplicate error, no panic), and N distinct keys (must build and carry all of them)
+    if prop == "C17" {
+        use crate::adapter::{BEvent, BOp, ClaimSpec, ErrClass, Layer, Out};
+        let counts: Vec<usize> = if quick { vec![2, 3, 127, 128, 129, 255, 256, 257, 258, 511, 512, 513, 65_535, 65_536, 65_537] } else { (2..=1_030).chain([4_095, 4_096, 4_097, 65_535, 65_536, 65_537, 65_538, 131_072, 131_073]).collect() };
+        let units: Vec<(Proto, usize)> = [Proto::V4L, Proto::V2P].iter().flat_map(|p| counts.iter().map(move |n| (*p, *n))).collect();
+        let accs = crate::explore::par_units(&units, |(p, n)| {
+            let mut acc = Acc::default();
+            let key = crate::domains::key_pool(*p)[0].clone();
+            for (ki, k) in ["role", "sub", "exp", ""].iter().enumerate() {
+                if *n > 1_030 && ki > 1 {
+                    continue;
+                }
+                let val = |i: usize| if *k == "exp" { json!("2999-01-01T00:00:00Z") } else { json!(format!("v{}", i % 3)) };
+                let mut ops: Vec<BOp> = vec![BOp::Claim(ClaimSpec::auto("other", json!(1)))];
+                ops.extend((0..*n).map(|i| BOp::Claim(ClaimSpec::auto(k, val(i)))));
+                ops.push(BOp::Build);
+                ops.push(BOp::Build);
+                let (ev, _) = crate::adapter::with_rng_script(vec![vec![1u8; 32], vec![2u8; 32]], || crate::adapter::build_history(*p, Layer::Prelude, &key.sk, &ops));
+                acc.executions += 1;
+                acc.choice_points += 1;
+                acc.see(&(p.name(), n, k));
+                let panicked = ev.iter().find_map(|e| if let BEvent::Built(Out::Panic(l)) = e { Some(l.clone()) } else { None });
+                let builds: Vec<&BEvent> = ev.iter().rev().take(2).collect();
+                // the empty key may be dropped by the builder (then it was never supplied twice): any verdict but a panic
+                let refused = builds.iter().all(|b| matches!(b, BEvent::Built(Out::Err(ErrClass::Dup(_)))));
+                if let Some(l) = panicked {
+                    acc.violate(format!("C17|{}|many-repeats|panic", p.name()), format!("key {:?} supplied {} times: panic at {}", k, n, l), json!({"near_miss": ["repeats", p.name(), k, n]}));
+                } else if !refused && !k.is_empty() {
+                    acc.violate(
+                        format!("C17|{}|many-repeats|not-refused", p.name()),
+                        format!("key {:?} supplied {} times, then build; build -> {:?}: every build must return the duplicate-claim error", k, n, builds.iter().map(|b| format!("{:?}", b).chars().take(80).collect::<String>()).collect::<Vec<_>>()),
+                        json!({"near_miss": ["repeats", p.name(), k, n]}),
+                    );
+                } else {
+                    acc.bump("many-repeats:refused");
+                }
+            }
+            // n distinct keys: builds, and every one of them is in the payload
+            if *n <= 1_030 || *n == 65_537 {
+                let ops: Vec<BOp> = (0..*n).map(|i| BOp::Claim(ClaimSpec::auto(&format!("k{}", i), json!(i)))).chain([BOp::Build]).collect();
+                let (ev, _) = crate::adapter::with_rng_script(vec![vec![1u8; 32]], || crate::adapter::build_history(*p, Layer::Prelude, &key.sk, &ops));
+                acc.executions += 1;
+                acc.choice_points += 1;
+                let ok = match ev.last() {
+                    Some(BEvent::Built(Out::Ok(t))) => crate::adapter::core_present(*p, &key.pk, t, None, None).ok().and_then(|s| serde_json::from_str::<Value>(s).ok()).map_or(false, |v| (0..*n).all(|i| v[format!("k{}", i)] == json!(i))),
+                    _ => false,
+                };
+                if ok {
+                    acc.bump("many-distinct:built");
+                } else {
+                    acc.violate(format!("C17|{}|many-distinct|failed", p.name()), format!("{} distinct keys, build -> {}", n, format!("{:?}", ev.last()).chars().take(120).collect::<String>()), json!({"near_miss": ["distinct", p.name(), "", n]}));
+                }
+            }
+            acc
+        });
+        all.merge(Acc::merge_all(accs));
+    }
+
     all.executions = REPLAYS.load(Ordering::Relaxed) + all.executions;
     all.impl_calls = all.executions;
     all.controls_ok = *all.hist.get("sequence:conforms").unwrap_or(&0);
